@@ -18,7 +18,7 @@ NAMING = {1: "-fnames", 2: "-fptrs", 3: None}
 FLAGS = {"string": "-string", "true_names": "-true-names", "unique_names": "-unique-names", "nodb": "-nodb",
          "do_module": "-do-module", "promiscuous": "-promiscuous", "nomangle": "-nomangle", "assert": "-assert"}
 FEATURES = ["f_keywords", "f_operators", "f_strdefault", "f_macros", "f_nested", "f_enumdefault", "f_stdstring",
-            "f_conversions"]
+            "f_conversions", "f_hierarchy"]
 PYINC = sysconfig.get_paths()["include"]
 PYLIBDIR = sysconfig.get_config_var("LIBDIR")
 PYVER = "python%d.%d" % sys.version_info[:2]
@@ -91,6 +91,55 @@ HEAD = """#ifndef %(G)s
 #define END_PUBLISH
 #endif
 """
+
+
+# functions whose DEFAULT ARGUMENT python-native re-emits as code: (name, parameter list, body expression).
+# Every f has a companion f_native() that calls f() in C++, i.e. with the value the compiler passes.
+DEFAULTS = [
+    ("s1", 'const char *s = "C:\\\\"', "vsum%(t)s(s)"),
+    ("s2", 'const char *s = "a\\\\\\"b"', "vsum%(t)s(s)"),
+    ("s3", 'const char *s = "caf\\xc3\\xa9"', "vsum%(t)s(s)"),
+    ("s4", 'const char *s = "x\\n\\ty\\\\"', "vsum%(t)s(s)"),
+    ("c1", "char q = '\\'', char b = '\\\\', char n = '\\n'", "q * 65536 + b * 256 + n"),
+    ("n1", "int v = -(-1)", "v"),
+    ("n2", "int v = 3 - -2, int w = +(+4)", "v * 16 + w"),
+    ("n3", "long long v = -9223372036854775807LL, unsigned u = 4294967295U", "(int)((v %% 1000) + (u %% 1000))"),
+    ("e1", "Mode m = Mode::on", "(int)m"),
+    ("e2", "DOther%(t)s::Mode m = DOther%(t)s::Mode::on, DOther%(t)s::Plain p = DOther%(t)s::p_b", "(int)m * 8 + (int)p"),
+    ("k1", "int v = DOther%(t)s::kLimit", "v"),
+    ("f1", 'int v = DOther%(t)s::make(1, "x")', "v"),
+    ("b1", "bool a = true, double d = -2.5, float f = 1e3f", "(int)(a + d * 4 + f)"),
+]
+DEFAULTS_STR = [
+    ("t1", "std::string s = kName%(t)s", "vsum%(t)s(s.c_str())"),
+    ("t2", 'std::string s = std::string("abc")', "vsum%(t)s(s.c_str())"),
+    ("t3", 'const std::string &s = "li\\\\t\\""', "vsum%(t)s(s.c_str())"),
+    ("t4", "std::string s = DOther%(t)s::name()", "vsum%(t)s(s.c_str())"),
+]
+
+
+def render_defaults(t, with_string, extra=()):
+    L = ["""class DOther%(t)s {
+PUBLISHED:
+  DOther%(t)s() {}
+  enum class Mode { off, on = 3 };
+  enum Plain { p_a, p_b = 6 };
+  static const int kLimit = 17;
+  static int make(int a, const char *s) { return a + s[0]; }
+  static const char *name() { return "nm"; }
+};
+static const char *const kName%(t)s = "kn";
+inline int vsum%(t)s(const char *s) { int h = 7; for (; *s; ++s) { h = (h * 31 + (unsigned char)*s) & 0xffffff; } return h; }
+class Dflt%(t)s {
+PUBLISHED:
+  Dflt%(t)s() {}
+  enum class Mode { off, on = 3 };""" % dict(t=t)]
+    for name, params, body in list(DEFAULTS) + (DEFAULTS_STR if with_string else []) + list(extra):
+        rt = "unsigned long long" if name.startswith("u") else "int"
+        L.append("  %s %s(%s) const { return %s; }" % (rt, name, params % dict(t=t), body % dict(t=t)))
+        L.append("  %s %s_native() const { return %s(); }" % (rt, name, name))
+    L.append("};")
+    return "\n".join(L)
 
 
 def render_library(tag, feats, other=None, collisions=None, overloads=True):
@@ -195,6 +244,47 @@ def render_library(tag, feats, other=None, collisions=None, overloads=True):
             for nm in grp:
                 L.append("  int %s(int a) { return a; }" % nm)
     L.append("public:\n  int hidden() { return 1; }\n  int _v;\n};")
+    if "f_strdefault" in feats:
+        L.append(render_defaults(t, "f_stdstring" in feats))
+    if "f_hierarchy" in feats:
+        L.append("""class HNode%(t)s {
+PUBLISHED:
+  HNode%(t)s() {}
+  virtual ~HNode%(t)s() {}
+  int node() const { return 1; }
+};
+class HOther%(t)s {
+PUBLISHED:
+  HOther%(t)s() {}
+  virtual ~HOther%(t)s() {}
+  int other() const { return 2; }
+};
+class HLeft%(t)s : virtual public HNode%(t)s {
+PUBLISHED:
+  HLeft%(t)s() {}
+  int left() const { return 3; }
+};
+class HRight%(t)s : public HOther%(t)s, virtual public HNode%(t)s {
+PUBLISHED:
+  HRight%(t)s() {}
+  int right() const { return 4; }
+};
+class HDiamond%(t)s : public HLeft%(t)s, public HRight%(t)s {
+PUBLISHED:
+  HDiamond%(t)s() {}
+  int dia() const { return 5; }
+  HNode%(t)s *as_node() { return this; }
+};
+class HProt%(t)s : protected HNode%(t)s, public HOther%(t)s {
+PUBLISHED:
+  HProt%(t)s() {}
+  int prot() const { return 6; }
+};
+class HPriv%(t)s : private HOther%(t)s {
+PUBLISHED:
+  HPriv%(t)s() {}
+  int priv() const { return 7; }
+};""" % dict(t=t))
     if "f_conversions" in feats:
         # types that are printed inside wrapper BODIES (casts of conversion operators, temporaries for
         # by-value parameters and results, default-argument expressions, new T(...)), declared in a
@@ -315,6 +405,14 @@ def runtime_objects(work):
     return [objs[0]], objs[1]
 
 
+def header_of(c, i):
+    t = c["tags"][i]
+    if c.get("raw"):
+        return HEAD % dict(G="LIB_%s_H" % t) + c["raw"] + "\n#endif\n"
+    return render_library(t, c["feats"], other=(c["tags"][0] if i == 1 else None),
+                          collisions=c.get("collisions") if i == 0 else None, overloads=c.get("true_names") != 2)
+
+
 def case_options(c):
     o = [BACKENDS[c["backend"]]]
     if NAMING[c["naming"]]:
@@ -342,9 +440,7 @@ def build_case(a):
         os.makedirs(ld)
         dirs.append(ld)
         other = tags[0] if i == 1 else None
-        open(os.path.join(ld, "lib_%s.h" % t), "w").write(
-            render_library(t, c["feats"], other=other, collisions=c.get("collisions") if i == 0 else None,
-                           overloads=c.get("true_names") != 2))
+        open(os.path.join(ld, "lib_%s.h" % t), "w").write(header_of(c, i))
     # spec sanity: the generated header is valid C++ (else the generator is wrong, not interrogate)
     rc, out = gxx(["-fsyntax-only", "-x", "c++", os.path.join(dirs[-1], "lib_%s.h" % tags[-1])] + ["-I" + x for x in dirs], d)
     if rc != 0:
@@ -460,25 +556,62 @@ def build_case(a):
     # --- import -----------------------------------------------------------------------------------
     if py and (need_module or c.get("do_module") == 2):
         want = []
-        if be == "-python-native":
+        if be == "-python-native" and not c.get("raw"):
             want = ["Base" + t for t in tags] + ["freefn" + t for t in tags]
-        script = ("import sys; sys.path.insert(0, %r); import %s as m; names = dir(m); "
-                  "missing = [n for n in %r if n not in names and n[0].lower() + n[1:] not in names]; "
-                  "print('MISSING', missing) if missing else print('OK', len(names))" % (d, mod, want))
+        # python-native re-emits default arguments as code: call every Dflt function with the argument
+        # omitted and compare with what the C++ compiler passes (f_native() calls f() in C++)
+        dnames = [n for n, _, _ in DEFAULTS + DEFAULTS_STR] + list(c.get("exec_extra", ()))
+        script = ("import sys; sys.path.insert(0, %r); import %s as m; names = dir(m)\n"
+                  "missing = [n for n in %r if n not in names and n[0].lower() + n[1:] not in names]\n"
+                  "bad = []; n_exec = 0\n"
+                  "for t in %r:\n"
+                  "    cls = getattr(m, 'Dflt' + t, None)\n"
+                  "    if cls is None: continue\n"
+                  "    o = cls()\n"
+                  "    for n in %r:\n"
+                  "        f = getattr(o, n, None); g = getattr(o, n + '_native', None)\n"
+                  "        if f is None or g is None: continue\n"
+                  "        n_exec += 1\n"
+                  "        got, want = f(), g()\n"
+                  "        if got != want: bad.append((n, got, want))\n"
+                  "print('MISSING', missing) if missing else (print('DEFAULT-MISMATCH', bad) if bad else print('OK', len(names), n_exec))"
+                  % (d, mod, want, tags, dnames))
         p = subprocess.run([sys.executable, "-c", script], stdout=subprocess.PIPE, stderr=subprocess.STDOUT, text=True,
                            timeout=120, cwd=d)
-        if p.returncode != 0 or not p.stdout.startswith("OK"):
+        if p.stdout.startswith("DEFAULT-MISMATCH"):
+            res["fail"].append(("default-value", "a default argument re-emitted by the wrapper has another value than in "
+                                "C++ (function, python-native, C++): " + p.stdout[17:500]))
+            res["imported"] = True
+        elif p.returncode != 0 or not p.stdout.startswith("OK"):
             res["fail"].append(("import", p.stdout[-500:]))
         else:
             res["imported"] = True
+            res["defaults_executed"] = int(p.stdout.split()[2])
     return res
 
 
 # ---------------------------------------------------------------------------------------------
 # known-finding classes: predicates over the INPUT (options + features) only
 def classes_of(c):
+    """Finding classes a case falls in.  The hand-written constructs below are run as separate cases (they are
+    not part of the lattice: each is known to fail on its own); the class is the construct, an INPUT."""
     out = []
+    if c.get("construct"):
+        out.append(c["construct"])
     return out
+
+
+KNOWN_CONSTRUCTS = [
+    # (finding id, back-ends, options, header body)
+    ("C03-template-nested-class", (1, 2, 3), {"promiscuous": 2},
+     "template<class T> class Tmpl { public: Tmpl() {} class Inner { public: Inner() {} T v; };\n"
+     "  Inner get() const { return Inner(); } int take(const Inner &i) const { return 1; } };\n"
+     "typedef Tmpl<int> TmplInt;\n"),
+    ("C03-anonymous-struct-member", (1, 2), {"promiscuous": 2},
+     "class Anon { public: Anon() {} struct { int x; int y; } pos; int n; };\n"),
+    ("C03-python-array-parameter", (2,), {"promiscuous": 2},
+     "class Arr { public: Arr() {} int sum(int a[3]) { return a[0]; } };\ninline int gsum(int v[4]) { return v[0]; }\n"),
+]
 
 
 def describe(c):
@@ -602,10 +735,20 @@ def run_check(ctx):
         ccases.append(c)
     ccases.append(dict(id="h4", backend=1, naming=2, tags=["H"], feats={"f_keywords"}, nodb=1, string=2,
                        collisions=col, collision_case=True))
+    # constructs with a known finding (each fails on its own; kept running so that the finding stays true)
+    kcases = []
+    for fid, backends, opts, body in KNOWN_CONSTRUCTS:
+        for be in backends:
+            kcases.append(dict(dict(id="k%d%s" % (be, fid[4:12].replace("-", "")), backend=be, naming=1, tags=["K"], feats=set(),
+                                    raw=body, construct=fid), **opts))
+    # an integer literal above LLONG_MAX as default argument (executed)
+    kcases.append(dict(id="k3ullmax", backend=3, naming=1, tags=["K"], feats=set(), string=2, promiscuous=2,
+                       raw=render_defaults("K", False, extra=[("u1", "unsigned long long v = 18446744073709551615ULL", "v")]),
+                       exec_extra=["u1"], construct="C03-default-literal-above-llong-max"))
     work = ctx.tmp
     rt = runtime_objects(work)
-    results = run.pmap(build_case, [(c, work, rt) for c in cases + ccases], workers=min(NCPU, 12))
-    by_id = {c["id"]: c for c in cases + ccases}
+    results = run.pmap(build_case, [(c, work, rt) for c in cases + ccases + kcases], workers=min(NCPU, 12))
+    by_id = {c["id"]: c for c in cases + ccases + kcases}
     n_ok = 0
     for res in results:
         c = by_id[res["id"]]
@@ -613,9 +756,7 @@ def run_check(ctx):
         if not res["fail"]:
             n_ok += 1
         for stage, detail in res["fail"]:
-            hdr = {t: render_library(t, c["feats"], other=(c["tags"][0] if i else None),
-                                     collisions=c.get("collisions") if i == 0 else None,
-                                     overloads=c.get("true_names") != 2) for i, t in enumerate(c["tags"])}
+            hdr = {t: header_of(c, i) for i, t in enumerate(c["tags"])}
             ctx.violation("%s: %s failed: %s" % (describe(c), stage, detail[:500]),
                           dict(options=case_options(c), features=sorted(c["feats"]), libraries=len(c["tags"]),
                                stage=stage, detail=detail, headers=hdr, stat_key=stage + ":" + detail[:60]),
@@ -645,6 +786,8 @@ def run_check(ctx):
     ctx.notes["tool_runs"] = sum(r["runs"] for r in results)
     ctx.notes["compiles"] = sum(r["compiles"] for r in results)
     ctx.notes["modules_imported"] = sum(1 for r in results if r.get("imported"))
+    ctx.notes["default_arguments_executed"] = sum(r.get("defaults_executed", 0) for r in results)
+    ctx.notes["known_construct_cases"] = len(kcases)
     ctx.notes["wrappers_checked"] = sum(r.get("wrappers", 0) for r in results)
     ctx.notes["wrapper_names_checked"] = sum(r.get("names", 0) for r in results)
     ctx.notes["unique_names_checked"] = sum(r.get("uniq", 0) for r in results)
